@@ -30,7 +30,7 @@ def scenario(rng, k, tier):
     L.append("create 1 " + " ".join(f"{x:x}" for x in first))
     table = {}        # ssrc -> key index (explicit)
     cloned = set()
-    pool = [rng.randrange(2, 1 << 32) for _ in range(12 if tier == "quick" else 60)]
+    pool = ssrc_pool(rng, 12 if tier == "quick" else 60)
     seq = {}
     nops = 60 if tier == "quick" else 500
     for step in range(nops):
